@@ -292,8 +292,8 @@ def cfg_rule(ctx: Ctx, rid: str = "R03.cfg") -> None:
                 "in range(num_words_in_block)", None if form is None else {"iter": form["iter"], "elt": form["elt"]})
     f = m.method("WriteBackMemorySystem", "_write_block_to_memory")
     wf = writeback_form(m, f)
-    ok = wf is not None and wf["recv"] == "P0.memory" and wf["cond"] == "LOOP1" and wf["value"] == "ELEM1.1(enumerate(P2))" and \
-        wf["address"] in {w.format(i="ELEM1.0(enumerate(P2))") for w in WORD_ADDRS}
+    ok = wf is not None and wf["recv"] == "P0.memory" and wf["cond"] == "LOOP1" and wf["value"] == "ELEM1.0(enumerate(P2))[1]" and \
+        wf["address"] in {w.format(i="ELEM1.0(enumerate(P2))[0]") for w in WORD_ADDRS}
     r.check(ok, "WriteBackMemorySystem._write_block_to_memory", f.loc(),
             "_write_block_to_memory does not write word i of the block to block_alinged_address + 4*i", wf)
     # num_words_in_block = 2**num_block_bits ; num_sets = 2**num_index_bits ; set selected by cache_set_index
